@@ -22,6 +22,7 @@ def requests():
     r = [Request(B + c + ".cxx", fn=["stir::%s::do_it" % c], files=["/repo/src/buildblock/%s\\.cxx" % c]) for c, _n in CONV]
     r.append(Request("src/numerics_buildblock/fourier.cxx", fn=["stir::inverse_fourier$", "stir::inverse_fourier_1d$"], files=["/repo/src/include/stir/numerics/fourier.h"]))
     r.append(Request(B + "ArrayFilterUsingRealDFTWithPadding.cxx", fn=["stir::ArrayFilterUsingRealDFTWithPadding::do_it", "stir::transform_array_(to|from)_periodic_indices"], files=["/repo/src/buildblock/ArrayFilterUsingRealDFTWithPadding.cxx", "/repo/src/include/stir/ArrayFunction.inl"]))
+    r.append(Request("src/numerics_buildblock/fourier.cxx", fn=["stir::.*fourier.*", "stir::detail::.*", "stir::get_exparray"], files=["/repo/src/include/stir/numerics/fourier.h", "/repo/src/numerics_buildblock/fourier.cxx"]))
     return r
 
 
@@ -214,6 +215,86 @@ def rule_c_padded_route(ctx, fns):
     return n
 
 
+def rule_d_sign_passed_on(ctx, fns):
+    """The multi-dimensional transforms are built from lower-dimensional and one-dimensional ones; all of them take the sign of the
+    exponent.  A transform with sign s is the composition of its parts with the SAME s: every call, made from a function that has a
+    parameter `sign`, to a function that has a parameter `sign`, passes an expression of the caller's sign for it - written out, never
+    left to the callee's default (+1), which would mix exponents of both signs for s = -1."""
+    RULE = "C19.d-sign-passed-on"
+    # the sign slot of every function of the family, found from the code, not from the parameter's name: a parameter that enters the
+    # argument of exp() is a sign (the twiddle factors), and so is a parameter that a function hands to a known sign slot
+    sig = {}  # qualified name -> {arity: index of the sign parameter}
+
+    def slot_of(f, d):
+        for i, p in enumerate(f.params):
+            if p.get("d") == d:
+                return i
+        return None
+
+    for f in fns:
+        if f.body is None:
+            continue
+        pd = {p["d"] for p in f.params if re.fullmatch(r"(const )?int", (p.get("t") or "").strip())}
+        inside = set()
+        for c in f.calls():
+            if (c.callee or "").split("::")[-1] == "exp":
+                inside |= {m.i for m in c.walk()}
+        for d in sorted(pd):
+            uses = [m for m in f.walk() if m.k == "DeclRefExpr" and m.get("dk") == "param" and m.get("d") == d]
+            # the sign enters the exponent and nothing else (a length that also sizes arrays or bounds loops is not the sign)
+            free = [m for m in uses if m.i not in inside and not any(a.is_call() and a.callee in sig for a in m.ancestors())]
+            if uses and any(m.i in inside for m in uses) and not free:
+                sig.setdefault(f.qn, {})[len(f.params)] = slot_of(f, d)
+    changed = True
+    while changed:
+        changed = False
+        for f in fns:
+            if f.body is None:
+                continue
+            pd = {p["d"] for p in f.params if re.fullmatch(r"(const )?int", (p.get("t") or "").strip())}
+            for c in f.calls():
+                if c.callee not in sig:
+                    continue
+                args = c.call_args()
+                for ar, j in sig[c.callee].items():
+                    if j is not None and j < len(args) and len(args) <= ar:
+                        a = args[j].strip()
+                        ds = [m.get("d") for m in a.walk() if m.k == "DeclRefExpr" and m.get("dk") == "param" and m.get("d") in pd]
+                        if ds and len(f.params) not in sig.get(f.qn, {}):
+                            sig.setdefault(f.qn, {})[len(f.params)] = slot_of(f, ds[0])
+                            changed = True
+    ctx.stats["functions_with_a_sign_slot"] = len(sig)
+    n = 0
+    seen = set()
+    for f in sorted(fns, key=lambda g: bool(g.is_dependent)):  # an instantiation (resolved callees) before the template pattern
+        if f.body is None or (f.file, f.body.line) in seen:
+            continue
+        j0 = sig.get(f.qn, {}).get(len(f.params))
+        mine = [f.params[j0]] if j0 is not None and j0 < len(f.params) else []
+        if not mine:
+            continue
+        seen.add((f.file, f.body.line))
+        sk = "v%d" % mine[0]["d"]
+        from engine.algebra import LocalDefs
+
+        defs = LocalDefs(f)
+        sub = {d: defs.single_def(d) for d in defs.decl}
+        for c in f.calls():
+            if c.callee not in sig:
+                continue
+            args = c.call_args()
+            # the overload with a `sign` parameter that this call can bind to: same or larger arity (defaults)
+            cand = sorted(ar for ar in sig[c.callee] if ar >= len([a for a in args if not a.strip().get("defarg")]))
+            if not cand:
+                continue
+            j = sig[c.callee][cand[0]]
+            a = args[j].strip() if j < len(args) else None
+            ok = a is not None and not a.get("defarg") and sk in key(a, False, sub)
+            ctx.ob(RULE, f.qn.split("<")[0], "%s@%d" % (c.callee.split("::")[-1], c.line), ok, c.where(), "passes `%s` as the sign of %s" % (key(a, True), c.callee.split("::")[-1]) if ok else ("calls %s without the sign (the callee's default +1 is used): for sign = -1 the parts of the transform use exponents of both signs, and the real-data transform no longer agrees with the complex one" % c.callee.split("::")[-1] if a is None or a.get("defarg") else "passes `%s`, which is not an expression of the caller's sign, as the sign of %s" % (key(a, True), c.callee.split("::")[-1])))
+            n += 1
+    return n
+
+
 def run(ctx):
     ctx.explanation = (
         "Decides two structural clauses: (a) in the direct-convolution filters (1D, 2D, 3D) the loop of every kernel index runs exactly over "
@@ -236,6 +317,8 @@ def run(ctx):
         rule_a(ctx, fs[0], ndim, cls)
     rule_b(ctx, us[3].functions)
     rule_c_padded_route(ctx, us[4].functions)
+    rule_d_sign_passed_on(ctx, us[5].functions)
+    ctx.require_count("C19.d-sign-passed-on", 14)
     ctx.require_count("C19.c-padded-route-through-modulo-map", 3)
     ctx.require_count("C19.a-convolution-index-bounds", 6)
     ctx.require_count("C19.b-inverse-is-forward-with-opposite-sign-over-n", 2)
